@@ -647,26 +647,94 @@ def check_sequence_files(ctx):
         rep.add('A1', gsf.site(c), 'list-file lines are read stripped (explicit argument or the default)', eff is not Ellipsis and is_const(eff, True), expected='strip=True in effect', found=u(eff) if eff is not Ellipsis else '*args', stmt='listfile strip')
 
 
+def unfold_reduce(m, fi, e):
+    """functools.reduce(f, (a, b, ...), init) over a literal tuple IS f(f(init, a), b) ...: the fold is written out."""
+    class T(ast.NodeTransformer):
+        def visit_Call(self, n):
+            self.generic_visit(n)
+            if m.resolve(fi.module, n.func) == 'functools.reduce' and not n.keywords and 2 <= len(n.args) <= 3 and isinstance(n.args[1], (ast.Tuple, ast.List)) \
+                    and not any(isinstance(x, ast.Starred) for x in list(n.args) + list(n.args[1].elts)) and (len(n.args) == 3 or n.args[1].elts):
+                elts = list(n.args[1].elts)
+                acc = n.args[2] if len(n.args) == 3 else elts.pop(0)
+                for x in elts:
+                    acc = ast.Call(func=copy.deepcopy(n.args[0]), args=[acc, x], keywords=[])
+                return ast.copy_location(acc, n) if isinstance(acc, ast.Call) else acc
+            return n
+    return ast.fix_missing_locations(T().visit(copy.deepcopy(e)))
+
+
 def check_labels(ctx):
     rep, m = ctx.rep, ctx.model
+    # ---- strip_seq_file_ext: the returned value is strip_extensions(strip_extensions(<filename>, <gzip table>), <FASTA table>) on every
+    # path (two assignments, a loop over the two tables, a nested call, a fold - all the same term); the tables are taken where the
+    # function now lives
+    fs = m.func(f'{CM}.strip_seq_file_ext')
+    rep.functions.add(fs.qualname)
+    SE = f'{CM}.strip_extensions'
+
+    def table(fi_, t):
+        try:
+            return tuple(m.const_value(fi_.module, t))
+        except (Undecided, TypeError):
+            return None
+
+    def peel(fi_, v):
+        """(innermost operand, [tables from the first applied to the last], [table texts]) of nested strip_extensions(., table) calls"""
+        layers = []
+        while isinstance(v, ast.Call) and m.resolve_call(fi_, v) == SE and len(v.args) == 2 and not v.keywords and not any(isinstance(a, ast.Starred) for a in v.args):
+            layers.append(v.args[1])
+            v = v.args[0]
+        layers.reverse()
+        return v, [table(fi_, t) for t in layers], [u(t) for t in layers]
+
+    def tables_ok(tb):
+        return len(tb) == 2 and tb[0] == ('.gz',) and tb[1] is not None and '.fasta' in tb[1] and '.gz' not in tb[1]
+
+    order, chained, shown, opaque = [], True, [], []
+    for guards, v, _ in sym_returns(fs, 'strip_seq_file_ext'):
+        v = unfold_reduce(m, fs, v)
+        shown.append(u(v))
+        base, tb, txt = peel(fs, v)
+        chained = chained and isinstance(base, ast.Name) and base.id == fs.params()[0] and len(tb) == 2
+        opaque += [t for t, x in zip(txt, tb) if x is None]
+        order.append(tb)
+    rep.add('A2', fs.site(), 'each stripping step works on the result of the previous one', bool(order) and chained, expected='strip_extensions(strip_extensions(filename, GZIP), FASTA)', found=shown, stmt='strip chain')
+    # a table that is not a constant cannot be compared (undecidable) - unless the chain itself is already broken, which stands
+    rep.require(not opaque, f'strip_seq_file_ext: the extension table {opaque[:1]} is not a constant')
+    rep.add('A2', fs.site(), 'the gzip extension is stripped before the FASTA extension (genome.fasta.gz -> genome)', bool(order) and all(tables_ok(o) for o in order), expected='GZIP then FASTA', found=shown, stmt='strip order')
+    gz, fa = (order[0] + [None, None])[:2] if order else (None, None)
+    rep.add('A2', (fs.module.relpath, fs.node.lineno, f'{CM}.FASTA_EXTENSIONS'), 'extension tables: .gz; the usual FASTA suffixes, longer before their prefixes (.fasta before .fa)',
+            bool(order) and all(o == order[0] for o in order) and gz == ('.gz',) and fa is not None and '.fasta' in fa and '.fa' in fa and '.fna' in fa
+            and all(not (b.startswith(a) and fa.index(a) < fa.index(b)) for a in fa for b in fa if a != b),
+            expected="('.gz',) / .fasta ... .fa", found=(gz, fa), stmt='extension tables')
+    # ---- get_file_id: label derivation, decided on the value returned along every path (over the parameters), whatever the statement
+    # shape: with both flags set (the defaults the CLI uses) the label is <extension strip>(basename(fspath(path))); with a flag
+    # cleared only a prefix of that chain is applied, and a stage is never applied when its flag is definitely cleared.  The
+    # extension strip is strip_seq_file_ext(.) or, written out, the two strip_extensions steps with the same tables in the same order.
     fi = m.func(f'{CM}.get_file_id')
     rep.functions.add(fi.qualname)
     p = fi.params()
-    # label derivation, decided on the value returned along every path (over the parameters), whatever the statement shape:
-    # with both flags set (the defaults the CLI uses) the label is strip_seq_file_ext(basename(fspath(path))); with a flag
-    # cleared only a prefix of that chain is applied, and a stage is never applied when its flag is definitely cleared
-    full = ['os.fspath', 'os.path.basename', f'{CM}.strip_seq_file_ext']
+    EXT = 'strip of the gzip, then the FASTA extension'
+    full = ['os.fspath', 'os.path.basename', EXT]
 
     def stages(v):
         out = []
-        while isinstance(v, ast.Call) and len(v.args) == 1 and not v.keywords and not isinstance(v.args[0], ast.Starred):
-            out.append(m.resolve_call(fi, v) or u(v.func))
-            v = v.args[0]
+        while isinstance(v, ast.Call) and not v.keywords and not any(isinstance(a, ast.Starred) for a in v.args):
+            r = m.resolve_call(fi, v)
+            if r == SE:
+                v, tb, txt = peel(fi, v)
+                out.append(EXT if order and tb == order[0] and tables_ok(tb) else f'strip_extensions over {txt}')
+            elif len(v.args) == 1:
+                out.append(EXT if r == f'{CM}.strip_seq_file_ext' else (r or u(v.func)))
+                v = v.args[0]
+            else:
+                break
         return list(reversed(out)) if isinstance(v, ast.Name) and v.id == p[0] else None
 
     paths = sym_returns(fi, 'get_file_id')
     okl, ndef, found = True, 0, []
     for guards, v, _ in paths:
+        v = unfold_reduce(m, fi, v)
         st = stages(v)
         found.append((sorted(path_atoms(guards)), u(v)))
         if feasible(guards, {p[1]: True, p[2]: True}):
@@ -687,36 +755,6 @@ def check_labels(ctx):
     for name in ('strip_dir', 'strip_ext'):
         d = gsf.param_default(name)
         rep.add('A2', gsf.site(), f'get_sequence_files: {name} defaults to True', d is not None and is_const(d, True), expected='True', found=u(d), stmt=f'gsf {name} default')
-    cm_mod = m.module(CM)
-    gz = m.const_value(cm_mod, cm_mod.assigns['GZIP_EXTENSIONS'])
-    fa = m.const_value(cm_mod, cm_mod.assigns['FASTA_EXTENSIONS'])
-    # strip_seq_file_ext: the returned value is strip_extensions(strip_extensions(<filename>, <gzip table>), <FASTA table>) on every path
-    fs = m.func(f'{CM}.strip_seq_file_ext')
-    rep.functions.add(fs.qualname)
-    order, chained, shown, opaque = [], True, [], []
-    for guards, v, _ in sym_returns(fs, 'strip_seq_file_ext'):
-        layers = []
-        shown.append(u(v))
-        while isinstance(v, ast.Call) and m.resolve_call(fs, v) == f'{CM}.strip_extensions' and len(v.args) == 2 and not v.keywords:
-            layers.append(v.args[1])
-            v = v.args[0]
-        chained = chained and isinstance(v, ast.Name) and v.id == fs.params()[0] and len(layers) == 2
-        tables = []
-        for t in reversed(layers):
-            try:
-                tables.append(tuple(m.const_value(fs.module, t)))
-            except Undecided:
-                tables.append(None)
-                opaque.append(u(t))
-        order.append(tables)
-    want = [tuple(gz), tuple(fa)]
-    rep.add('A2', fs.site(), 'each stripping step works on the result of the previous one', bool(order) and chained, expected='strip_extensions(strip_extensions(filename, GZIP), FASTA)', found=shown, stmt='strip chain')
-    # a table that is not a constant cannot be compared (undecidable) - unless the chain itself is already broken, which stands
-    rep.require(not opaque, f'strip_seq_file_ext: the extension table {opaque[:1]} is not a constant')
-    rep.add('A2', fs.site(), 'the gzip extension is stripped before the FASTA extension (genome.fasta.gz -> genome)', bool(order) and all(o == want for o in order), expected='GZIP then FASTA', found=shown, stmt='strip order')
-    rep.add('A2', (cm_mod.relpath, cm_mod.assigns['FASTA_EXTENSIONS'].lineno, f'{CM}.FASTA_EXTENSIONS'), 'extension tables: .gz; the usual FASTA suffixes, longer before their prefixes (.fasta before .fa)',
-            tuple(gz) == ('.gz',) and '.fasta' in fa and '.fa' in fa and '.fna' in fa and all(not (b.startswith(a) and fa.index(a) < fa.index(b)) for a in fa for b in fa if a != b),
-            expected="('.gz',) / .fasta ... .fa", found=(gz, fa), stmt='extension tables')
     check_strip_extensions(ctx)
 
 
@@ -756,26 +794,39 @@ def check_strip_extensions(ctx):
             rep.require(False, f'strip_extensions: the search loop has {len(inner)} returns, {len(brk)} breaks and {len(stores)} stores to {fn}: not a first-match search the rule can evaluate')
         miss = u(outer[0].value) if len(outer) == 1 and fe.node.body[-1] is outer[0] else [u(r.value) for r in outer]
     elif len(nexts) == 1 and not loops and not stores:
-        c = nexts[0]
+        # the generator may be bound to a local first: work on the returned values with the locals substituted
+        paths = sym_returns(fe, 'strip_extensions')
+        found_next = {}
+        for guards, v, _ in paths:
+            for x in [v] + [t for t, _ in guards]:
+                for n in ast.walk(x):
+                    if isinstance(n, ast.Call) and isinstance(n.func, ast.Name) and n.func.id == 'next':
+                        found_next.setdefault(u(n), n)
+        rep.require(len(found_next) == 1, f'strip_extensions: {len(found_next)} different next() searches after substitution')
+        N, c = next(iter(found_next.items()))
         gen = c.args[0] if c.args else None
         rep.require(isinstance(gen, ast.GeneratorExp) and len(gen.generators) == 1 and not gen.generators[0].is_async and isinstance(gen.generators[0].target, ast.Name)
-                    and len(c.args) == 2 and is_none(c.args[1]) and not c.keywords,
-                    f'strip_extensions: `{u(c)[:80]}` is not next(<generator expression>, None)')
+                    and len(c.args) == 2 and not c.keywords and not any(isinstance(a, ast.Starred) for a in c.args),
+                    f'strip_extensions: `{N[:80]}` is not next(<generator expression>, <default>)')
         g = gen.generators[0]
         it, e = u(g.iter), g.target.id
         cond = set()
         for t in g.ifs:
             cond |= atoms(t, True) or {('?', u(t))}
-        N = u(c)
-        paths = sym_returns(fe, 'strip_extensions')
-        for guards, v, _ in paths:
-            at = path_atoms(guards)
-            if at == {('is',) + tuple(sorted(['None', N]))} and miss is None:
-                miss = u(v)
-            elif at == {('isnot',) + tuple(sorted(['None', N]))} and hit is None:
-                hit = u(v).replace(N, e) if u(gen.elt) == e else f'{u(v)} with {N} yielding {u(gen.elt)}'
-            else:
-                rep.require(False, f'strip_extensions: return under {sorted(at)} is not decided by `{N} is None` alone')
+        if len(paths) == 1 and not paths[0][0] and u(paths[0][1]) == N:
+            # the search result IS the returned value: the generator yields the stripped name, the default is the no-match value
+            hit, miss = u(gen.elt), u(c.args[1])
+        else:
+            # the search yields the matching extension (None when there is none) and the outcome is decided on `is None`
+            rep.require(is_none(c.args[1]), f'strip_extensions: the outcome of `{N[:80]}` is tested, but its default is not None')
+            for guards, v, _ in paths:
+                at = path_atoms(guards)
+                if at == {('is',) + tuple(sorted(['None', N]))} and miss is None:
+                    miss = u(v)
+                elif at == {('isnot',) + tuple(sorted(['None', N]))} and hit is None:
+                    hit = u(v).replace(N, e) if u(gen.elt) == e else f'{u(v)} with {N} yielding {u(gen.elt)}'
+                else:
+                    rep.require(False, f'strip_extensions: return under {sorted(at)} is not decided by `{N} is None` alone')
     elif not loops and not nexts:
         pass    # no search at all: reported below
     else:
@@ -804,55 +855,127 @@ def value_cases(fi, gm, e, stmt, depth=0):
     return [(set(), e, stmt)]
 
 
+def _contradictory(at):
+    return any((('false',) + a[1:]) in at for a in at if a[0] == 'true') or any((('isnot',) + a[1:]) in at for a in at if a[0] == 'is')
+
+
 def check_query_paths(ctx):
     rep, m = ctx.rep, ctx.model
     # ---- query_cmd
     fc = m.func('gambit.cli.query.query_cmd')
     rep.functions.add(fc.qualname)
     gmc = guard_map(fc.node)
-    qp = [c for c in calls_in(fc.node) if m.resolve_call(fc, c) == 'gambit.query.query_parse']
-    rep.require(len(qp) == 1, 'query_cmd: expected one query_parse call')
-    c = qp[0]
-    st = next(s for s in stmts_in(fc.node.body) if any(x is c for x in ast.walk(s)) and isinstance(s, ast.Assign))
-    files_root = align.source(m, fc, *deref(fc, c.args[1], st))[0]
-    labels = get_kw(c, 'file_labels')
-    labels_root = align.source(m, fc, *deref(fc, labels, st))[0] if labels is not None else None
-    rep.add('A3', fc.site(c), 'file channel: labels and files handed to query_parse are the two aligned components of one get_sequence_files call', files_root == labels_root and files_root.startswith(f'{CM}.get_sequence_files('),
-            expected='same get_sequence_files(...) call', found=(files_root, labels_root), stmt='cmd labels/files')
+    # every way the command reaches query(): directly, or through query_parse (whose own body is checked below).  A case is one
+    # call together with the condition under which its operands have the given values (locals bound per branch are split).
+    cases = []
+    for call in calls_in(fc.node):
+        r = m.resolve_call(fc, call)
+        if r not in ('gambit.query.query', 'gambit.query.query_parse'):
+            continue
+        cst = _stmt_of(fc, call)
+        rep.require(cst is not None and cst in gmc and len(call.args) >= 2 and not any(isinstance(a, ast.Starred) for a in call.args), f'query_cmd: {u(call)[:60]} cannot be located / has starred operands')
+        base = path_atoms(gmc[cst])
+        if r == 'gambit.query.query_parse':
+            cases.append(dict(kind='parse', call=call, stmt=cst, atoms=base))
+            continue
+        i0 = get_kw(call, 'inputs')
+        for at_s, sv_, ss_ in value_cases(fc, gmc, call.args[1], cst):
+            for at_i, iv_, is_ in (value_cases(fc, gmc, i0, cst) if i0 is not None else [(set(), None, cst)]):
+                at = base | at_s | at_i
+                if not _contradictory(at):
+                    cases.append(dict(kind='query', call=call, stmt=cst, atoms=at, S=sv_, Sst=ss_, I=iv_, Ist=is_))
+    sigc = [k for k in cases if ('true', 'sigfile') in k['atoms']]
+    filc = [k for k in cases if ('false', 'sigfile') in k['atoms']]
+    rest = [k for k in cases if not any(k is x for x in sigc + filc)]
+    split = len(sigc) == 1 and len(filc) == 1 and not rest
+    rep.add('A5', fc.site(cases[0]['call'] if cases else None), 'exactly one channel is used: signature file if given, genome files otherwise', split, expected='one query under `sigfile`, one under `not sigfile`',
+            found=[(k['kind'], sorted(k['atoms'])) for k in cases], stmt='channel split')
+    rep.require(split, 'query_cmd: the query()/query_parse() calls do not split into one signature-file and one genome-file case')
+    sg, fl = sigc[0], filc[0]
+
+    def local_def(e, at_):
+        d = reaching_def(fc.node, e.id, at_) if isinstance(e, ast.Name) else None
+        return def_value(d) if d not in (None, PARAM, AMBIGUOUS) else None
+
+    # ---- genome-file channel (A3): labels and files are the two components of one get_sequence_files call, each input carries its
+    # own label and file, and the signatures are computed from those files in that order
     gs = [x for x in calls_in(fc.node) if m.resolve_call(fc, x) == f'{CM}.get_sequence_files']
+    gst = next((s_ for s_ in stmts_in(fc.node.body) if isinstance(s_, ast.Assign) and gs and s_.value is gs[0]), None)
+    comp = [u(e_) for e_ in gst.targets[0].elts] if gst is not None and isinstance(gst.targets[0], ast.Tuple) else []
+    c, st = fl['call'], fl['stmt']
+    if fl['kind'] == 'parse':
+        files_e, labels = c.args[1], get_kw(c, 'file_labels')
+        files_root = align.source(m, fc, *deref(fc, files_e, st))[0]
+        labels_root = align.source(m, fc, *deref(fc, labels, st))[0] if labels is not None else None
+        unpack_ok = comp == [u(labels), u(files_e)]
+        via = 'query_parse'
+    else:
+        # what query_parse would do, done in the command itself
+        sval = fl['S'] if not isinstance(fl['S'], ast.Name) else (local_def(fl['S'], fl['Sst']) or fl['S'])
+        files_root = align.source(m, fc, *deref(fc, fl['S'], fl['Sst']))[0]
+        files_e = sval.args[1] if isinstance(sval, ast.Call) and m.resolve_call(fc, sval) == 'gambit.sigs.calc.calc_file_signatures' and len(sval.args) > 1 else None
+        ival = fl['I'] if not isinstance(fl['I'], ast.Name) else (as_comprehension(fc, reaching_def(fc.node, fl['I'].id, fl['Ist']))[0] if reaching_def(fc.node, fl['I'].id, fl['Ist']) not in (None, PARAM, AMBIGUOUS) else None)
+        zef = each_form(ival) if ival is not None else None
+        zit = zef[0] if zef is not None else None
+        strict = isinstance(zit, ast.Call) and m.resolve_call(fc, zit) == 'gambit.util.misc.zip_strict' and len(zit.args) == 2 and not any(isinstance(a, ast.Starred) for a in zit.args)
+        rep.add('A3', fc.site(c), 'inputs are labels STRICTLY zipped with the files (a length mismatch is an error, never a silent truncation)', strict, expected='zip_strict(ids, files)', found=u(zit) if zit is not None else u(ival), stmt='cmd inputs strict')
+        rep.require(strict, f'query_cmd: inputs of the genome-file case are not built over zip_strict(<labels>, <files>)')
+        roots = [align.source(m, fc, *deref(fc, a, fl['Ist']))[0] for a in zit.args]
+        labels_root = roots[0] if len(set(roots)) == 1 else f'{roots}'
+        tg, e = zef[1], zef[2]
+        tn = [u(x) for x in tg.elts] if isinstance(tg, ast.Tuple) else []
+        ops = [u(a) for a in zit.args]
+        # which zip operand is the ids component / the files component of the unpacked pair
+        ki = ops.index(comp[0]) if len(comp) == 2 and comp[0] in ops else None
+        kf = ops.index(comp[1]) if len(comp) == 2 and comp[1] in ops else None
+        oke = isinstance(e, ast.Call) and m.resolve_call(fc, e) == 'gambit.query.QueryInput' and len(tn) == 2 and ki is not None and kf is not None and ki != kf and [u(a) for a in e.args] == [tn[ki], tn[kf]] and not e.keywords
+        rep.add('A3', fc.site(c), 'each input carries its own label and its own file', oke, expected='QueryInput(label, file) for label, file in zip_strict(ids, files)', found=u(ival), stmt='cmd input pairing')
+        unpack_ok = len(comp) == 2 and files_e is not None and u(files_e) == comp[1] and ki is not None
+        labels = zit.args[ki] if ki is not None else None
+        via = 'query'
+    rep.add('A3', fc.site(c), f'file channel: labels and files handed to {via} are the two aligned components of one get_sequence_files call', files_root == labels_root and files_root.startswith(f'{CM}.get_sequence_files('),
+            expected='same get_sequence_files(...) call', found=(files_root, labels_root), stmt='cmd labels/files')
     okg = len(gs) == 1 and [u(a) for a in gs[0].args] == ['files_arg', 'listfile', 'ldir'] and not gs[0].keywords
     rep.add('A3', fc.site(gs[0] if gs else c), 'positional files, list file and its base directory are passed in that order, with default label stripping', okg, expected='get_sequence_files(files_arg, listfile, ldir)', found=[u(x) for x in gs], stmt='cmd input channels')
-    gst = next((s for s in stmts_in(fc.node.body) if isinstance(s, ast.Assign) and gs and s.value is gs[0]), None)
-    rep.add('A3', fc.site(gst), 'the pair is unpacked as (ids, files)', gst is not None and isinstance(gst.targets[0], ast.Tuple) and [u(e) for e in gst.targets[0].elts] == [u(labels), u(c.args[1])], expected='ids, files = ...',
-            found=u(gst.targets[0]) if gst is not None else None, stmt='cmd unpack')
-    dbd = def_value(reaching_def(fc.node, c.args[0].id, st)) if isinstance(c.args[0], ast.Name) and reaching_def(fc.node, c.args[0].id, st) not in (None, PARAM, AMBIGUOUS) else None
-    prd = def_value(reaching_def(fc.node, c.args[2].id, st)) if len(c.args) > 2 and isinstance(c.args[2], ast.Name) and reaching_def(fc.node, c.args[2].id, st) not in (None, PARAM, AMBIGUOUS) else None
+    rep.add('A3', fc.site(gst), 'the pair is unpacked as (ids, files)', gst is not None and unpack_ok, expected='ids, files = ...; labels from ids, files (and their signatures) from files',
+            found=(comp, u(labels), u(files_e)), stmt='cmd unpack')
+    dbd, prd = local_def(c.args[0], st), local_def(c.args[2], st) if len(c.args) > 2 else None
     rep.add('A3', fc.site(c), 'the query runs against the loaded database with the command parameters', isinstance(dbd, ast.Call) and callee_attr(dbd) == 'get_database' and isinstance(prd, ast.Call)
-            and m.resolve_call(fc, prd) == 'gambit.query.QueryParams', expected='query_parse(<ctx.obj.get_database()>, files, <QueryParams(...)>, ...)', found=(u(dbd), u(prd)), stmt='cmd query_parse operands')
-    # sig channel (A5)
-    qq = [x for x in calls_in(fc.node) if m.resolve_call(fc, x) == 'gambit.query.query']
-    rep.require(len(qq) == 1, 'query_cmd: expected one query() call')
-    q = qq[0]
-    qst = next(s for s in stmts_in(fc.node.body) if any(x is q for x in ast.walk(s)) and isinstance(s, ast.Assign))
-    inp = get_kw(q, 'inputs')
-    iroot = align.source(m, fc, *deref(fc, inp, qst))[0] if inp is not None else None
+            and m.resolve_call(fc, prd) == 'gambit.query.QueryParams', expected=f'{via}(<ctx.obj.get_database()>, ..., <QueryParams(...)>, ...)', found=(u(dbd), u(prd)), stmt='cmd query_parse operands')
+    # ---- signature-file channel (A5)
+    q, qst = sg['call'], sg['stmt']
+    rep.add('A5', fc.site(q), 'the signature-file case queries the loaded signatures directly', sg['kind'] == 'query', expected='query(db, <loaded signatures>, ...)', found=u(q)[:80], stmt='sigfile call')
+    rep.require(sg['kind'] == 'query', 'query_cmd: the signature-file case goes through query_parse')
     sv = q.args[1]
-    okq = isinstance(sv, ast.Name) and iroot == f'{sv.id}.ids'
+    sdef = reaching_def(fc.node, sv.id, qst) if isinstance(sv, ast.Name) and isinstance(sg['S'], ast.Name) else sg['Sst']
+    sd = def_value(sdef) if isinstance(sg['S'], ast.Name) and sdef not in (None, PARAM, AMBIGUOUS) else None if isinstance(sg['S'], ast.Name) else sg['S']
+    inp = sg['I']
+    iroot = align.source(m, fc, *deref(fc, inp, sg['Ist']))[0] if inp is not None else None
+    # `<sv>.ids` is read from the very object that is queried: the definition of sv that reaches the inputs is the one that is queried
+    same_obj = isinstance(sv, ast.Name) and (sg['Ist'] is sdef or reaching_def(fc.node, sv.id, sg['Ist']) is sdef)
+    okq = isinstance(sv, ast.Name) and iroot == f'{sv.id}.ids' and same_obj
     rep.add('A5', fc.site(q), 'signature-file channel: one input per stored id, in stored order, and the signatures of the same object are queried', okq, expected=f'inputs = [QueryInput(id) for id in {u(sv)}.ids]; query(db, {u(sv)}, ...)',
             found=(u(sv), iroot), stmt='sigfile labels')
-    idv = as_comprehension(fc, reaching_def(fc.node, inp.id, qst))[0] if isinstance(inp, ast.Name) and reaching_def(fc.node, inp.id, qst) not in (None, PARAM, AMBIGUOUS) else None if isinstance(inp, ast.Name) else inp
+    idv = inp if not isinstance(inp, ast.Name) else (as_comprehension(fc, reaching_def(fc.node, inp.id, sg['Ist']))[0] if reaching_def(fc.node, inp.id, sg['Ist']) not in (None, PARAM, AMBIGUOUS) else None)
     ief = each_form(idv) if idv is not None else None
     okl = ief is not None and isinstance(ief[2], ast.Call) and m.resolve_call(fc, ief[2]) == 'gambit.query.QueryInput' and [u(a) for a in ief[2].args] == [u(ief[1])] and not ief[2].keywords
     rep.add('A5', fc.site(q), 'each label is the stored id itself', okl, expected='QueryInput(id) for every stored id', found=u(idv), stmt='sigfile label value')
-    sd = def_value(reaching_def(fc.node, sv.id, qst)) if isinstance(sv, ast.Name) else None
     rep.add('A5', fc.site(q), 'the queried signatures are the loaded signature file', isinstance(sd, ast.Call) and (m.resolve_call(fc, sd) or '').endswith('load_signatures') and [u(a) for a in sd.args] == ['sigfile'], expected='load_signatures(sigfile)',
             found=u(sd), stmt='sigfile source')
-    atq, atp = path_atoms(gmc[qst]), path_atoms(gmc[st])
-    rep.add('A5', fc.site(q), 'exactly one channel is used: signature file if given, genome files otherwise', ('true', 'sigfile') in atq and ('false', 'sigfile') in atp, expected='if sigfile: ... else: ...', found=(sorted(atq), sorted(atp)), stmt='channel split')
+    # ---- export (A8): what is exported is the result of the query call of whichever channel ran
     exp = [x for x in calls_in(fc.node) if callee_attr(x) == 'export']
-    res_names = {u(qst.targets[0]), u(st.targets[0])}
-    rep.add('A8', fc.site(exp[0] if exp else None), 'the results of whichever channel ran are exported once to the chosen output', len(exp) == 1 and len(res_names) == 1 and [u(a) for a in exp[0].args] == ['output', res_names.pop()],
-            expected='exporter.export(output, results)', found=[u(x) for x in exp], stmt='export call')
+    okx = bool(exp)
+    seen = []
+    for x in exp:
+        okx = okx and len(x.args) == 2 and u(x.args[0]) == 'output' and not x.keywords
+        if okx:
+            xst = _stmt_of(fc, x)
+            for _, v_, vs_ in value_cases(fc, gmc, x.args[1], xst):
+                seen.append(local_def(v_, vs_) if isinstance(v_, ast.Name) else v_)
+    # every exported value is the result of one of the query calls, and every query call's result is exported exactly once
+    okx = okx and all(any(g is k['call'] for k in cases) for g in seen) and all(sum(1 for g in seen if g is k['call']) == 1 for k in cases)
+    rep.add('A8', fc.site(exp[0] if exp else None), 'the results of whichever channel ran are exported once to the chosen output', okx,
+            expected='exporter.export(output, <result of the query call>)', found=[u(x)[:100] for x in exp], stmt='export call')
 
     # ---- query_parse (A3)
     fq = m.func('gambit.query.query_parse')
@@ -1386,6 +1509,16 @@ _GSF_PAIRS = ("\tif explicit:\n\t\tnamed_paths = [(str(path), path) for path in 
               "\tfiles = SequenceFile.from_paths([@FILES@], 'fasta', 'auto')\n\tids = [get_file_id(name, strip_dir, strip_ext) for name, path in @IDS@]\n")
 _RL_OLD = "\t\t\tif not (skip_empty and not line):\n\t\t\t\tyield line\n"
 _JS_OLD = "\t\tdata = asdict(results, recurse=False)\n\t\tdel data['params']  # Parameters not currently exposed thru CLI, so omit for now.\n\t\treturn data\n"
+_CMD_OLD = ("\t\tinputs = [QueryInput(id) for id in sigs.ids]\n\t\tresults = query(db, sigs, params, inputs=inputs, progress=pconf)\n\n\telse:\n"
+            "\t\tids, files = common.get_sequence_files(files_arg, listfile, ldir)\n"
+            "\t\tcommon.warn_duplicate_file_ids(ids, 'Warning: the following query file IDs are present more than once: {ids}')\n"
+            "\t\tresults = query_parse(\n\t\t\tdb, files, params,\n\t\t\tfile_labels=ids,\n\t\t\tprogress=pconf,\n\t\t\tparse_kw=dict(max_workers=cores),\n\t\t)\n\n\texporter.export(output, results)\n")
+_CMD_NEW = ("\t\tinputs = [QueryInput(id) for id in sigs.ids]\n\n\telse:\n"
+            "\t\tids, files = common.get_sequence_files(files_arg, listfile, ldir)\n"
+            "\t\tcommon.warn_duplicate_file_ids(ids, 'Warning: the following query file IDs are present more than once: {ids}')\n"
+            "\t\tinputs = [@QI@ in @ZIP@]\n"
+            "\t\tsigs = calc_file_signatures(db.signatures.kmerspec, @F@, progress=pconf.update(desc='Parsing input'), max_workers=cores)\n\n"
+            "\texporter.export(output, query(db, sigs, params, inputs=inputs, progress=pconf))\n")
 VARIANTS = [
     V('zip for zip_strict', 'B', _Q, "for label, file in zip_strict(file_labels, files)]", "for label, file in zip(file_labels, files)]", 'A3'),
     V('files sorted in query_parse', 'B', _Q, "\tquery_sigs = calc_file_signatures(db.signatures.kmerspec, files, **parse_kw)", "\tquery_sigs = calc_file_signatures(db.signatures.kmerspec, sorted(files), **parse_kw)", 'A3'),
@@ -1542,4 +1675,44 @@ VARIANTS = [
     V('asdict filter keeps only the parameters', 'B', _R, _JS_OLD, "\t\treturn asdict(results, recurse=False, filter=lambda field, value: field.name == 'params')\n", 'A8'),
     V('JSON items replaced by a sorted copy', 'B', _R, "\t\tdel data['params']  # Parameters not currently exposed thru CLI, so omit for now.\n", "\t\tdel data['params']\n\t\tdata['items'] = sorted(data['items'], key=lambda it: it.input.label)\n", 'A8'),
     V('JSON mapping recursed into (items no longer exported as the objects they are)', 'B', _R, "\t\tdata = asdict(results, recurse=False)\n", "\t\tdata = asdict(results, recurse=True)\n", 'A8'),
+    # ---- third pass: helpers written out / folded, next() with the no-match value as default, the file channel done in the command,
+    # standard-library containers as local state
+    V('E: get_file_id with the two strip_extensions steps written out', 'E', _C, "\t\t\tid = strip_seq_file_ext(id)\n", "\t\t\tid = strip_extensions(id, GZIP_EXTENSIONS)\n\t\t\tid = strip_extensions(id, FASTA_EXTENSIONS)\n"),
+    V('written-out steps in the wrong order (FASTA before gzip)', 'B', _C, "\t\t\tid = strip_seq_file_ext(id)\n", "\t\t\tid = strip_extensions(id, FASTA_EXTENSIONS)\n\t\t\tid = strip_extensions(id, GZIP_EXTENSIONS)\n", 'A2'),
+    V('written-out steps: only the gzip extension is stripped', 'B', _C, "\t\t\tid = strip_seq_file_ext(id)\n", "\t\t\tid = strip_extensions(id, GZIP_EXTENSIONS)\n", 'A2'),
+    V('E: extension groups folded with functools.reduce', 'E', _C, _SSE_OLD, "\treturn reduce(strip_extensions, (GZIP_EXTENSIONS, FASTA_EXTENSIONS), filename)\n",
+      also=((_C, "from collections import Counter\n", "from collections import Counter\nfrom functools import reduce\n"),)),
+    V('reduce over the groups in the wrong order', 'B', _C, _SSE_OLD, "\treturn reduce(strip_extensions, (FASTA_EXTENSIONS, GZIP_EXTENSIONS), filename)\n", 'A2',
+      also=((_C, "from collections import Counter\n", "from collections import Counter\nfrom functools import reduce\n"),)),
+    V('reduce without the file name as the initial value (the gzip table is taken as the name)', 'B', _C, _SSE_OLD, "\treturn reduce(strip_extensions, (GZIP_EXTENSIONS, FASTA_EXTENSIONS))\n", 'A2',
+      also=((_C, "from collections import Counter\n", "from collections import Counter\nfrom functools import reduce\n"),)),
+    V('E: next() over the stripped names with the name itself as default', 'E', _C, _SE_OLD,
+      "\tstripped = (filename[:-len(ext)] for ext in extensions if filename.endswith(ext))\n\treturn next(stripped, filename)\n"),
+    V('next() over the stripped names, default None (no match gives None)', 'B', _C, _SE_OLD,
+      "\tstripped = (filename[:-len(ext)] for ext in extensions if filename.endswith(ext))\n\treturn next(stripped, None)\n", 'A2'),
+    V('next() over the stripped names cuts the wrong end', 'B', _C, _SE_OLD,
+      "\tstripped = (filename[len(ext):] for ext in extensions if filename.endswith(ext))\n\treturn next(stripped, filename)\n", 'A2'),
+    V('next() over the stripped names without the suffix test (first extension length always cut)', 'B', _C, _SE_OLD,
+      "\tstripped = (filename[:-len(ext)] for ext in extensions)\n\treturn next(stripped, filename)\n", 'A2'),
+    V('E: genome-file channel done in the command (one shared query call)', 'E', _CQ, _CMD_OLD, _CMD_NEW.replace('@ZIP@', 'zip_strict(ids, files)').replace('@QI@', 'QueryInput(id, file) for id, file').replace('@F@', 'files'),
+      also=((_CQ, "from gambit.query import QueryParams, QueryInput, query, query_parse\n", "from gambit.query import QueryParams, QueryInput, query, query_parse\nfrom gambit.sigs.calc import calc_file_signatures\nfrom gambit.util.misc import zip_strict\n"),)),
+    V('inlined file channel zips labels and files non-strictly', 'B', _CQ, _CMD_OLD, _CMD_NEW.replace('@ZIP@', 'zip(ids, files)').replace('@QI@', 'QueryInput(id, file) for id, file').replace('@F@', 'files'), 'A3',
+      also=((_CQ, "from gambit.query import QueryParams, QueryInput, query, query_parse\n", "from gambit.query import QueryParams, QueryInput, query, query_parse\nfrom gambit.sigs.calc import calc_file_signatures\nfrom gambit.util.misc import zip_strict\n"),)),
+    V('inlined file channel crosses label and file', 'B', _CQ, _CMD_OLD, _CMD_NEW.replace('@ZIP@', 'zip_strict(ids, files)').replace('@QI@', 'QueryInput(id, file) for file, id').replace('@F@', 'files'), 'A3',
+      also=((_CQ, "from gambit.query import QueryParams, QueryInput, query, query_parse\n", "from gambit.query import QueryParams, QueryInput, query, query_parse\nfrom gambit.sigs.calc import calc_file_signatures\nfrom gambit.util.misc import zip_strict\n"),)),
+    V('inlined file channel computes the signatures from the sorted files', 'B', _CQ, _CMD_OLD, _CMD_NEW.replace('@ZIP@', 'zip_strict(ids, files)').replace('@QI@', 'QueryInput(id, file) for id, file').replace('@F@', 'sorted(files)'), 'A3',
+      also=((_CQ, "from gambit.query import QueryParams, QueryInput, query, query_parse\n", "from gambit.query import QueryParams, QueryInput, query, query_parse\nfrom gambit.sigs.calc import calc_file_signatures\nfrom gambit.util.misc import zip_strict\n"),)),
+    V('shared query call, but the signature-file inputs are read from the sorted ids', 'B', _CQ, _CMD_OLD, _CMD_NEW.replace('@ZIP@', 'zip_strict(ids, files)').replace('@QI@', 'QueryInput(id, file) for id, file').replace('@F@', 'files')
+      .replace('for id in sigs.ids]', 'for id in sorted(sigs.ids)]'), 'A5',
+      also=((_CQ, "from gambit.query import QueryParams, QueryInput, query, query_parse\n", "from gambit.query import QueryParams, QueryInput, query, query_parse\nfrom gambit.sigs.calc import calc_file_signatures\nfrom gambit.util.misc import zip_strict\n"),)),
+    V('E: results exported directly from the query call of each channel', 'E', _CQ, "\t\tresults = query(db, sigs, params, inputs=inputs, progress=pconf)\n", "\t\texporter.export(output, query(db, sigs, params, inputs=inputs, progress=pconf))\n\t\treturn\n"),
+    V('E: matches accumulated in a collections.defaultdict(list)', 'E', 'src/gambit/classify.py', "\tmatches = dict()\n", "\tmatches = defaultdict(list)\n",
+      also=(('src/gambit/classify.py', "\t\t\tmatches.setdefault(match, []).append(i)\n\n\treturn matches\n", "\t\t\tmatches[match].append(i)\n\n\treturn dict(matches)\n"),
+            ('src/gambit/classify.py', "from typing import Optional, Iterable, Sequence\n", "from typing import Optional, Iterable, Sequence\nfrom collections import defaultdict\n"))),
+    V('matches accumulated in a module-level defaultdict (shared between rows)', 'B', 'src/gambit/classify.py', "\tmatches = dict()\n", "\tmatches = _MATCHES\n", 'A6',
+      also=(('src/gambit/classify.py', "\t\t\tmatches.setdefault(match, []).append(i)\n\n\treturn matches\n", "\t\t\tmatches[match].append(i)\n\n\treturn dict(matches)\n"),
+            ('src/gambit/classify.py', "from typing import Optional, Iterable, Sequence\n", "from typing import Optional, Iterable, Sequence\nfrom collections import defaultdict\n\n_MATCHES = defaultdict(list)\n"))),
+    V('defaultdict seeded with a pre-existing mapping (its lists are shared)', 'B', 'src/gambit/classify.py', "\tmatches = dict()\n", "\tmatches = defaultdict(list, _SEEN)\n", 'A6',
+      also=(('src/gambit/classify.py', "\t\t\tmatches.setdefault(match, []).append(i)\n\n\treturn matches\n", "\t\t\tmatches[match].append(i)\n\n\treturn dict(matches)\n"),
+            ('src/gambit/classify.py', "from typing import Optional, Iterable, Sequence\n", "from typing import Optional, Iterable, Sequence\nfrom collections import defaultdict\n\n_SEEN = {}\n"))),
 ]
